@@ -801,6 +801,7 @@ pub(crate) fn tokens_to_operator_tree<NumericTypes: EvalexprNumericTypes>(
 ) -> EvalexprResult<Node<NumericTypes>, NumericTypes> {
     let mut root_stack = vec![Node::root_node()];
     let mut last_token_is_rightsided_value = false;
+    let mut last_token_is_identifier = false;
     let mut token_iter = tokens.iter().peekable();
 
     while let Some(token) = token_iter.next().cloned() {
@@ -831,6 +832,10 @@ pub(crate) fn tokens_to_operator_tree<NumericTypes: EvalexprNumericTypes>(
             Token::Not => Some(Node::new(Operator::Not)),
 
             Token::LBrace => {
+                // Only an identifier, which then is a function, may directly be followed by an opening brace
+                if last_token_is_rightsided_value && !last_token_is_identifier {
+                    return Err(EvalexprError::MissingOperatorOutsideOfBrace);
+                }
                 root_stack.push(Node::root_node());
                 None
             },
@@ -955,6 +960,7 @@ pub(crate) fn tokens_to_operator_tree<NumericTypes: EvalexprNumericTypes>(
         }
 
         last_token_is_rightsided_value = token.is_rightsided_value();
+        last_token_is_identifier = matches!(token, Token::Identifier(_));
     }
 
     // In the end, all sequences are implicitly terminated
